@@ -36,3 +36,22 @@ Definition cache_names (rp : repo) (root_chain : bool) : list bytes :=
   ++ flat_map (fun n => match cache_delegated_name rp n with Some f => [f] | None => [] end)
               (role_names (rp_targets rp))
   ++ (if root_chain then map root_json (count_up (N.to_nat (r_version (rp_root rp))) 1) else []).
+
+(* ---------------------------------------------------------------------------------------- *)
+(* the cached copy as a server: cache_file_from_transport copies, from an unchanged source, exactly
+   the files named above; the copy serves those files under those names and nothing else *)
+Definition cache_srv (srv : server) (names : list bytes) : server :=
+  filter (fun kv => mem_bytes (fst kv) names) srv.
+
+(* Targets::role_names over a list of loaded delegated roles (the inner loop of [role_names]) *)
+Fixpoint roles_names (roles : list (dhdr * option targets)) : list bytes :=
+  match roles with
+  | [] => []
+  | (h, c) :: rest => dh_name h :: match c with Some child => role_names child | None => [] end ++ roles_names rest
+  end.
+
+(* the cycle of a client that reads the copy: same configuration, shipped root and clock, nothing
+   interrupts it *)
+Definition copy_cycle (c : cyc) (shipped : content) (names : list bytes) : cyc :=
+  {| cy_cfg := cy_cfg c; cy_shipped := shipped; cy_srv := cache_srv (cy_srv c) names; cy_now := cy_now c;
+     cy_fault := None |}.
